@@ -496,7 +496,7 @@ impl Spaces {
     }
 
     pub fn names(&self) -> Vec<&'static str> {
-        vec!["nesting", "soups", "macros", "defines", "extremes", "bytes2", "bytes_cls", "tokens", "tokens_cls", "directives", "mutants", "mutants_repo"]
+        vec!["nesting", "soups", "macros", "defines", "extremes", "names", "bytes2", "bytes_cls", "tokens", "tokens_cls", "directives", "mutants", "mutants_repo"]
     }
 
     pub fn len(&self, space: &str) -> u64 {
@@ -524,6 +524,7 @@ impl Spaces {
             }
             "nesting" => nesting_families().iter().map(|f| f.2 as u64).sum::<u64>() * 4,
             "soups" => (soup_families().len() * soup_counts().len()) as u64,
+            "names" => (NAME_WORDS.len() * NAME_KINDS.len() * NAME_KINDS.len() * NAME_SUFFIX_SETS.len()) as u64 * 4,
             _ => 0,
         }
     }
@@ -693,6 +694,25 @@ impl Spaces {
                 }
                 unreachable!()
             }
+            "names" => {
+                // an entity named W (possibly renamed by an exporter because W is reserved in the target) next to
+                // entities that already carry the names the renaming would try next (W_0, W_1, W_0_0)
+                let (nw, nk, ns) = (NAME_WORDS.len() as u64, NAME_KINDS.len() as u64, NAME_SUFFIX_SETS.len() as u64);
+                decode(idx, &[4, ns, nk, nk, nw], &mut d);
+                let w = NAME_WORDS[d[4] as usize];
+                let (k1, k2) = (NAME_KINDS[d[3] as usize], NAME_KINDS[d[2] as usize]);
+                let mut globals = String::new();
+                let mut body = String::new();
+                name_entity(k1, w, 0, &mut globals, &mut body);
+                for (i, suf) in NAME_SUFFIX_SETS[d[1] as usize].iter().enumerate() {
+                    name_entity(k2, &format!("{}{}", w, suf), i + 1, &mut globals, &mut body);
+                }
+                let src = format!("{}uint f() {{\n    uint r = 0u;\n{}    return r;\n}}\n", globals, body);
+                let mut c = Case::simple(&format!("names|{}|{}", k1, k2), src, 0);
+                c.cfg = ALL_CFGS[d[0] as usize];
+                c.mode = Mode::NoPipeline;
+                c
+            }
             "soups" => {
                 let fams = soup_families();
                 let counts = soup_counts();
@@ -705,6 +725,53 @@ impl Spaces {
                 c
             }
             _ => unreachable!(),
+        }
+    }
+}
+
+/// words that are reserved in at least one target but are accepted as rssl identifiers, plus an ordinary control
+const NAME_WORDS: &[&str] = &["and", "kernel", "vertex", "shared", "uniform", "device", "xq"];
+const NAME_KINDS: &[&str] = &["local", "local-other-function", "parameter", "global", "function", "struct", "member", "cbuffer-member", "namespace", "enum-value"];
+const NAME_SUFFIX_SETS: &[&[&str]] = &[&["_0"], &["_0", "_1"], &["_0", "_0_0"], &["_1"]];
+
+fn name_entity(kind: &str, name: &str, k: usize, globals: &mut String, body: &mut String) {
+    match kind {
+        "local" => body.push_str(&format!("    uint {n} = {k}u;\n    r += {n};\n", n = name, k = k)),
+        "local-other-function" => {
+            globals.push_str(&format!("uint other{k}() {{ uint {n} = {k}u; return {n}; }}\n", n = name, k = k));
+            body.push_str(&format!("    r += other{}();\n", k));
+        }
+        "parameter" => {
+            globals.push_str(&format!("uint withp{k}(uint {n}) {{ return {n} + 1u; }}\n", n = name, k = k));
+            body.push_str(&format!("    r += withp{}(r);\n", k));
+        }
+        "global" => {
+            globals.push_str(&format!("static uint {} = {}u;\n", name, k));
+            body.push_str(&format!("    r += {};\n", name));
+        }
+        "function" => {
+            globals.push_str(&format!("uint {}() {{ return {}u; }}\n", name, k));
+            body.push_str(&format!("    r += {}();\n", name));
+        }
+        "struct" => {
+            globals.push_str(&format!("struct {} {{ uint m; }};\n", name));
+            body.push_str(&format!("    {} sv{k};\n    sv{k}.m = {k}u;\n    r += sv{k}.m;\n", name, k = k));
+        }
+        "member" => {
+            globals.push_str(&format!("struct SM{} {{ uint {}; }};\n", k, name));
+            body.push_str(&format!("    SM{k} mv{k};\n    mv{k}.{n} = {k}u;\n    r += mv{k}.{n};\n", n = name, k = k));
+        }
+        "cbuffer-member" => {
+            globals.push_str(&format!("cbuffer CB{} {{ uint {}; }}\n", k, name));
+            body.push_str(&format!("    r += {};\n", name));
+        }
+        "namespace" => {
+            globals.push_str(&format!("namespace {} {{ uint g() {{ return {}u; }} }}\n", name, k));
+            body.push_str(&format!("    r += {}::g();\n", name));
+        }
+        _ => {
+            globals.push_str(&format!("enum EN{} {{ {} }};\n", k, name));
+            body.push_str(&format!("    r += (uint){};\n", name));
         }
     }
 }
@@ -784,6 +851,7 @@ pub fn run(ctx: &Ctx) -> i32 {
             "defines" => 200,
             "macros" => 500,
             "extremes" => 64,
+            "names" => 40,
             _ => 2_000,
         };
         let describe = |idx: u64| -> (String, String) {
